@@ -179,6 +179,16 @@ func jsonMutants(valid []byte, rng *rand.Rand, big bool) []jmut {
 				add("1MB string "+sh, jset(root, p, strings.Repeat("f", 1<<20), false))
 			}
 			add("unicode "+sh, jset(root, p, "é日本\u0000\"\\", false))
+			if len(x) >= 4 && len(x)%2 == 0 && isHexStr(x) {
+				// well-formed hex of another length / at the edge of the value range: decodes, then has to be
+				// refused by whatever parses the bytes (a point, a scalar, a signature, a hash)
+				add("hex one byte shorter "+sh, jset(root, p, x[:len(x)-2], false))
+				add("hex one byte longer "+sh, jset(root, p, x+"00", false))
+				add("hex all ff "+sh, jset(root, p, strings.Repeat("f", len(x)), false))
+				add("hex all zero "+sh, jset(root, p, strings.Repeat("0", len(x)), false))
+				add("hex doubled "+sh, jset(root, p, x+x, false))
+				add("hex second half ff "+sh, jset(root, p, x[:len(x)/2]+strings.Repeat("f", len(x)/2), false))
+			}
 		case json.Number:
 			add("retype number->string "+sh, jset(root, p, x.String(), false))
 			add("retype number->array "+sh, jset(root, p, []any{x}, false))
@@ -235,4 +245,13 @@ func jsonMutants(valid []byte, rng *rand.Rand, big bool) []jmut {
 		}
 	}
 	return out
+}
+
+func isHexStr(x string) bool {
+	for _, c := range x {
+		if !(c >= '0' && c <= '9' || c >= 'a' && c <= 'f' || c >= 'A' && c <= 'F') {
+			return false
+		}
+	}
+	return true
 }
